@@ -192,6 +192,7 @@ func genC06(env *core.Env, emit func(core.Case)) {
 		outcome := ""
 		var preRead *connh.IORes // result of a Read that was pending while the previous backend record was written
 		pendingMode := r.IntN(2) == 0
+		duringMode := r.IntN(2) == 0 // the client answers while the Write is still in progress
 		for hi, e := range hist {
 			if dead {
 				break
@@ -203,9 +204,14 @@ func genC06(env *core.Env, emit func(core.Case)) {
 					// the relay's other goroutine is already blocked in Read when this record is written
 					nrec, _ := recOf(hist[hi+1])
 					var rd connh.IORes
-					wr, rd = s.WriteWhileReadPending(70000, rec, [][]byte{nrec}, "eof")
+					if duringMode {
+						wr, rd = s.WriteAnsweredDuring(70000, rec, [][]byte{nrec}, "eof")
+						env.Count("client-answers-during-backend-write/" + e)
+					} else {
+						wr, rd = s.WriteWhileReadPending(70000, rec, [][]byte{nrec}, "eof")
+						env.Count("read-pending-during-backend-write/" + e)
+					}
 					preRead = &rd
-					env.Count("read-pending-during-backend-write/" + e)
 				} else {
 					wr = s.Write(rec)
 				}
